@@ -259,6 +259,12 @@ fixed("F19f", "C19", "4a6de27",
                  ["new", "pda", {"finals": [], "how": "mut", "kpool": "std", "spool": "str", "start": "q0",
                                  "trans": [["q0", "a", "Z", "q0", []], ["q0", "a", "Z", "q1", []]], "ypool": "ab", "z0": "Z"}],
                  ["op", "p_inter_fa", [2, 1]], ["op", "p_inter_regex", [3, 0]]]})
+fixed("F19g", "C19", "bd45867",
+      "CFG.intersection raised AttributeError on a grammar without start symbol (the CFG() returned by an earlier intersection with an empty language)",
+      {"family": "grammar_automata_regex",
+       "steps": [["new", "fa", fa("enfa", [[0, "a", 0]], [0], [1], pool="int")], ["new", "regex", {"text": "a"}],
+                 ["new", "cfg", {"how": "text", "prods": [["S", [["V", "S"], ["T", "a"]]], ["S", [["T", "a"]]]], "start": "S", "tpool": "ab", "vpool": "std"}],
+                 ["op", "c_inter_fa", [2, 0]], ["op", "c_inter_regex", [3, 1]]]})
 # ------------------------------------------------------------------ C06
 fixed("F06a", "C06", "2262869",
       "to_regex raised ValueError on automata with two start states",
